@@ -370,10 +370,10 @@ def check_case(case: dict, res: Result):
                     viol.append((None, f"injected at tick {t} ({sn['kind']}), complete before the edit at tick "
                                  f"{rec['edit_tick']}, but afterwards: missing {missing} {cmd_problems}", sub))
                 elif rec["edit_result"] == "merge_method" and not dropped_by_edit(sn, rec):
-                    viol.append((None, f"injected at tick {t} ({sn['kind']}), merge at tick {rec['edit_tick']}: the injected "
-                                 f"interrupt / command request survived the merge ({rec['inj_intr_before']}->"
+                    viol.append((None, f"injected at tick {t} ({sn['kind']}), merge at tick {rec['edit_tick']}: the merge did "
+                                 f"not drop an injected interrupt / command request ({rec['inj_intr_before']}->"
                                  f"{rec['inj_intr_after']} injected interrupts, command manager replaced: "
-                                 f"{rec['cm_replaced']}) but the injected code did not complete: missing {missing} "
+                                 f"{rec['cm_replaced']}), yet the injected code did not complete: missing {missing} "
                                  f"{cmd_problems}", sub))
                 elif rec["edit_result"] == "merge_method":
                     viol.append(("C14.injection_lost_on_live_edit",
